@@ -391,9 +391,14 @@ pub fn run_property(prop: &str, tier: &str, units: Vec<Unit>, threads: usize, on
         "[{}] tier={} evaluations={} transitions={} states={} distinct_outcomes={} violations={} known={} exhaustive={} wall={:.1}s",
         prop, tier, p.evaluations, p.transitions, p.states, p.outcomes.len(), p.violations, p.known_hits, p.exhaustive, p.start.elapsed().as_secs_f64()
     );
-    if p.outcomes.len() < 2 {
+    if p.outcomes.len() < 2 && only_unit.is_none() {
         eprintln!("MACHINERY: fewer than 2 distinct outcomes over the whole check - exploration is vacuous");
-        return exit.max(2);
+        return if p.violations > 0 { 1 } else { 2 };
+    }
+    // a replayable violation stands even if some other unit had a machinery problem (e.g. a changed server whose
+    // behaviour depends on hash-map iteration order makes that unit's default execution irreproducible)
+    if p.violations > 0 {
+        return 1;
     }
     exit
 }
